@@ -22,8 +22,9 @@ func TestMain(m *testing.M) { pbt.Main(m, "C05") }
 
 // Op codes: "add" (Push/Enqueue v), "take" (Pop/Dequeue), "peek", "clear".
 type Op struct {
-	O string `json:"o"`
-	V int    `json:"v,omitempty"`
+	O  string `json:"o"`
+	V  int    `json:"v,omitempty"`
+	Vs []int  `json:"vs,omitempty"` // load: the denoted content, in removal order
 }
 
 type Case struct {
@@ -43,25 +44,27 @@ type box struct {
 	values func() []int
 	full   func() bool // nil unless ring
 	lifo   bool
+	toJSON func() ([]byte, error)
+	load   func([]byte) error
 }
 
 func build(kind string, c int) box {
 	switch kind {
 	case "arraystack":
 		s := arraystack.New[int]()
-		return box{s.Push, s.Pop, s.Peek, s.Clear, s.Size, s.Empty, s.Values, nil, true}
+		return box{s.Push, s.Pop, s.Peek, s.Clear, s.Size, s.Empty, s.Values, nil, true, s.ToJSON, s.FromJSON}
 	case "linkedliststack":
 		s := linkedliststack.New[int]()
-		return box{s.Push, s.Pop, s.Peek, s.Clear, s.Size, s.Empty, s.Values, nil, true}
+		return box{s.Push, s.Pop, s.Peek, s.Clear, s.Size, s.Empty, s.Values, nil, true, s.ToJSON, s.FromJSON}
 	case "arrayqueue":
 		q := arrayqueue.New[int]()
-		return box{q.Enqueue, q.Dequeue, q.Peek, q.Clear, q.Size, q.Empty, q.Values, nil, false}
+		return box{q.Enqueue, q.Dequeue, q.Peek, q.Clear, q.Size, q.Empty, q.Values, nil, false, q.ToJSON, q.FromJSON}
 	case "linkedlistqueue":
 		q := linkedlistqueue.New[int]()
-		return box{q.Enqueue, q.Dequeue, q.Peek, q.Clear, q.Size, q.Empty, q.Values, nil, false}
+		return box{q.Enqueue, q.Dequeue, q.Peek, q.Clear, q.Size, q.Empty, q.Values, nil, false, q.ToJSON, q.FromJSON}
 	case "circularbuffer":
 		q := circularbuffer.New[int](c)
-		return box{q.Enqueue, q.Dequeue, q.Peek, q.Clear, q.Size, q.Empty, q.Values, q.Full, false}
+		return box{q.Enqueue, q.Dequeue, q.Peek, q.Clear, q.Size, q.Empty, q.Values, q.Full, false, q.ToJSON, q.FromJSON}
 	}
 	panic("unknown kind " + kind)
 }
@@ -138,6 +141,33 @@ func check(c Case) (pbt.Info, error) {
 			b.clear()
 			model = nil
 			start = 0
+		case "load":
+			// a state reached through FromJSON is a reachable state.  The document is
+			// what a fresh container of the same kind and capacity, brought to the
+			// denoted state by plain adds, serialises to (C11's round trip), so no
+			// assumption about the orientation of the array is made here.
+			want := slices.Clone(op.Vs)
+			if ring && len(want) > c.Cap {
+				want = want[len(want)-c.Cap:]
+			}
+			src := build(c.Kind, c.Cap)
+			for j := range want {
+				if b.lifo {
+					src.add(want[len(want)-1-j])
+				} else {
+					src.add(want[j])
+				}
+			}
+			doc, err := src.toJSON()
+			if err != nil {
+				return info, fmt.Errorf("step %d: ToJSON of a fresh container holding %v failed: %v", i, want, err)
+			}
+			if err := b.load(doc); err != nil {
+				return info, fmt.Errorf("step %d: FromJSON(%s) failed: %v", i, doc, err)
+			}
+			model = want
+			start = 0
+			info.Label("load")
 		default:
 			return info, fmt.Errorf("bad op %q", op.O)
 		}
@@ -206,7 +236,9 @@ func gen(kind string) func(t *rapid.T) Case {
 		n := rapid.IntRange(0, maxN).Draw(t, "n")
 		next := 1
 		for i := 0; i < n; i++ {
-			switch dom.Weighted(t, "op", 1, 50, 30, 8, 2) {
+			switch dom.Weighted(t, "op", 1, 50, 30, 8, 2, 2) {
+			case 5:
+				c.Ops = append(c.Ops, Op{O: "load", Vs: rapid.SliceOfN(rapid.IntRange(0, 9), 0, 12).Draw(t, "doc")})
 			case 0: // nop (shrink target)
 			case 1:
 				v := next
@@ -245,7 +277,9 @@ func genLong(kind string) func(t *rapid.T) Case {
 		phases := rapid.IntRange(1, 8).Draw(t, "phases")
 		for p := 0; p < phases; p++ {
 			n := rapid.IntRange(1, 220).Draw(t, "len")
-			switch dom.Weighted(t, "phase", 5, 4, 4, 1) {
+			switch dom.Weighted(t, "phase", 5, 4, 4, 1, 1) {
+			case 4:
+				c.Ops = append(c.Ops, Op{O: "load", Vs: rapid.SliceOfN(rapid.IntRange(0, 50), 0, 150).Draw(t, "doc")})
 			case 0: // grow
 				for i := 0; i < n; i++ {
 					c.Ops = append(c.Ops, Op{O: "add", V: next})
